@@ -892,15 +892,14 @@ Proof.
   intros I HR [Hw Hnr].
   assert (Hok : op_ok m o).
   { destruct o; cbn [op_ok write_handle] in *; try exact Logic.I.
-    - intros Hk. destruct (N.eqb_spec k 0); [contradiction|]. eapply registered_of_reader; eassumption.
+    - intros Hk. eapply registered_of_reader; eassumption.
     - eapply registered_of_reader; eassumption.
     - apply Hnr. reflexivity. }
   split; [|split; [|apply mstep_inv; assumption]].
   - (* outputs *)
     destruct o as [l|h k v|h k|h k|h|h|h| | |]; cbn [mstep astep write_handle] in *.
     + cbn [snd]. rewrite (r_next m a HR). reflexivity.
-    + destruct (N.eqb_spec k 0); [reflexivity|].
-      destruct (areader a h); [reflexivity | congruence].
+    + destruct (areader a h); [|congruence]. destruct (N.eqb_spec k 0); reflexivity.
     + destruct (areader a h); [reflexivity | congruence].
     + assert (F := reader_sim m a h HR).
       destruct (tx_info m h) as [x|], (areader a h) as [t|]; try (destruct F; fail); [|reflexivity].
@@ -920,8 +919,8 @@ Proof.
   - (* states *)
     destruct o as [l|h k v|h k|h k|h|h|h| | |]; cbn [mstep astep write_handle] in *.
     + cbn [fst]. exact (begin_sim m a l I HR).
-    + destruct (N.eqb_spec k 0); [exact HR|].
-      destruct (areader a h) eqn:Er; [|congruence]. cbn [fst].
+    + destruct (areader a h) eqn:Er; [|congruence].
+      destruct (N.eqb_spec k 0); [exact HR|]. cbn [fst].
       assert (Hreg : registered m h) by (eapply registered_of_reader; [exact HR | congruence]).
       set (m2 := set_cont (set_nextcid m (N.succ (m_nextcid m))) (aset (m_cont m) (m_nextcid m) v)).
       assert (I2 : Inv m2) by exact (Inv_set_cont_fresh m v I).
